@@ -33,7 +33,7 @@ def _post(result, args, kwargs, old):
         return
     ctx.count('evaluations')
     ctx.count('contract_evals:Grammar.parse')
-    v = _state.get('version')
+    v = _ver(args)
     for kind, msg in treechecks.check_shape(result):
         ctx.violation(kind, msg, {'version': v, 'code': code})
     for n in walk(result):
@@ -47,12 +47,12 @@ def _post(result, args, kwargs, old):
 
 def _on_raise(exc, args, kwargs):
     ctx = _state.get('ctx')
-    if ctx is None or not kwargs.get('error_recovery', True):
+    if ctx is None or not kwargs.get('error_recovery', True) or kwargs.get('start_symbol') not in (None, 'file_input'):
         return
     code = args[1] if len(args) > 1 else kwargs.get('code')
-    if not isinstance(code, str):
+    if not isinstance(code, str) or kwargs.get('path') is not None or kwargs.get('file_io') is not None:
         return
-    v = _state.get('version')
+    v = _ver(args)
     ctx.count('evaluations')
     if isinstance(exc, RecursionError):
         est = nesting_estimate(code)
@@ -63,6 +63,9 @@ def _on_raise(exc, args, kwargs):
                       {'version': v, 'code': code}, exc=harness.exc_info(exc))
         return
     info = harness.exc_info(exc)
+    if not info.get('in_parso'):
+        ctx.count('raised_before_entering_parso_not_judged')     # e.g. TypeError for a wrong keyword argument
+        return
     ctx.violation('parse_raised', '%s: %s in %s: %s' % (info['type'], info['text'], info['func'], info['line']),
                   {'version': v, 'code': code}, exc=info)
 
@@ -123,6 +126,8 @@ def run_shard(spec, ctx):
     steps = spec.get('steps')
     if steps:
         _line_monitor_on()
+    if spec['kind'] == 'suite':
+        return _text.run_repo_suite(ID, ctx)
     if spec['kind'] == 'ladder':
         depths = spec['depths']
         it = ((harness.VERSIONS[(i + d) % 9], c(d), 'ladder') for d in depths for i, c in enumerate(CONSTRUCTS))
@@ -170,8 +175,19 @@ def shards(tier, seed):
            'budget_s': 60 if tier == 'quick' else 900} for i in range(4 if tier == 'quick' else 8)]
     ladder = [1, 2, 3, 5, 8, 13, 21, 34, 55, 80, 90, 95] if tier == 'quick' else list(range(1, 96))
     s += [{'kind': 'ladder', 'depths': ladder[i::4]} for i in range(4)]
+    if tier == 'thorough':
+        s.append({'kind': 'suite'})
     return s
 
 
 def floors(tier):
     return {'evaluations': 5000, 'trees_with_errors': 1000, 'step_budget_checks': 500, 'ladder_cases': 100}
+
+
+def _ver(args):
+    gv = getattr(args[0], 'version_info', None) if args else None
+    return '%d.%d' % (gv.major, gv.minor) if gv is not None else _state.get('version')
+
+
+def install_for_suite(ctx):
+    _install(ctx)
